@@ -368,7 +368,7 @@ func handleViolation(v *replay, ph phase, scratch string, ev *evidence) int {
 	if err != nil {
 		trouble("%v", err)
 	}
-	if ro.Class != v.Class {
+	if !core.SameClass(ro.Class, v.Class) {
 		trouble("violation %q of run %d did not reproduce in a fresh process (got %q): harness nondeterminism, not reported as a violation; file kept at %s", v.Class, v.Run, ro.Class, path)
 	}
 	// minimise
@@ -385,10 +385,10 @@ func handleViolation(v *replay, ph phase, scratch string, ev *evidence) int {
 	if err != nil {
 		trouble("%v", err)
 	}
-	if ro.Class != v.Class {
+	if !core.SameClass(ro.Class, v.Class) {
 		// fall back to the unminimised, confirmed run
 		os.WriteFile(path, b, 0o644)
-		if ro, err = replayFile(ph, scratch, path); err != nil || ro.Class != v.Class {
+		if ro, err = replayFile(ph, scratch, path); err != nil || !core.SameClass(ro.Class, v.Class) {
 			trouble("minimised and original replay both failed to reproduce %q", v.Class)
 		}
 	}
@@ -396,7 +396,7 @@ func handleViolation(v *replay, ph phase, scratch string, ev *evidence) int {
 	fb, _ := os.ReadFile(path)
 	final := &replay{}
 	json.Unmarshal(fb, final)
-	final.Detail, final.Choices, final.Sample, final.RunHash = ro.Detail, ro.Choices, ro.Sample, ro.RunHash
+	final.Class, final.Detail, final.Choices, final.Sample, final.RunHash = ro.Class, ro.Detail, ro.Choices, ro.Sample, ro.RunHash
 	fb, _ = json.MarshalIndent(final, "", " ")
 	os.WriteFile(path, fb, 0o644)
 
